@@ -12,9 +12,9 @@ pub fn run(property: &str, tier: &str) -> i32 {
         closure_calls, outcome_kinds, c01, c02, samples,
     } = st;
     if property == "C01" {
-        report.violations(c01);
+        report.violation_set(c01);
     } else {
-        report.violations(c02);
+        report.violation_set(c02);
     }
     let inconclusive_share = exhausted as f64 / (calls.max(1) as f64);
     let coverage = json!({
